@@ -66,18 +66,19 @@ theorem C38_password (hI : cr.Ideal) (w0 : W cr) (h0 : Inv w0) (ops : List Op) :
   intro w i a hi hp pw
   have h := run_inv h0 ops
   rw [openIndex_eq h.idx, hi]
-  simp only [Option.map_some, W.decrypt]
+  simp only [Option.map_some]
+  congr 1
   have hs : a.Sealed := by
     have : a ∈ w.records := List.mem_of_getElem? hi
     obtain ⟨id, hm, hd⟩ := mem_records.mp this
     exact h.idx.sealOK id hm a hd
+  unfold W.decrypt
   by_cases h0 : pw = 0
-  · simp [h0]
+  · rw [if_pos h0, if_neg (fun e => e.2 h0)]
   · rw [if_neg h0, hs, hI, hp]
     by_cases hk : pw = a.gPw
-    · have : w.prm = w.prm := rfl
-      simp [hk, h0, ← hk]
-    · simp [hk]
+    · rw [if_pos ⟨hk, rfl⟩, if_pos ⟨hk, h0⟩]
+    · rw [if_neg (fun e => hk e.1), if_neg (fun e => hk e.1)]
 
 /-- the same after reopening the wallet -/
 theorem C38_password_after_reload (hI : cr.Ideal) (w0 : W cr) (h0 : Inv w0) (ops : List Op) :
@@ -123,7 +124,7 @@ theorem C38_changePassword_spec (hI : cr.Ideal) (w : W cr) (h : Inv w) (addr old
             · rename_i hc
               cases hk
               refine ⟨id, a, { a with key := cr.enc a.gSk new salt w.prm, salt := salt, gSk := a.gSk, gPw := new, gPrm := w.prm },
-                rfl, ha, ?_, hc.1.symm, hc.2.symm, rfl, rfl, rfl, ?_, rfl⟩
+                hl, ha, ?_, hc.1.symm, hc.2.symm, rfl, rfl, rfl, ?_, rfl⟩
               · show (w.setObj id _).deref id = _
                 rw [deref_setObj]; simp
               · intro e; exact hnz ⟨rfl, e⟩
